@@ -19,9 +19,10 @@ LISTS = {"deme_list": "deme", "nat_list": "nat", "inds": "ind"}
 
 
 class FTr(STr):
-    def __init__(self, src, cls, fname, params):
+    def __init__(self, src, cls, fname, params, mod=None):
         super().__init__(src, cls, fname, "tree", params)
         self.rettype = "cmap"
+        self.mod = mod
 
     # ---------------------------------------------------------------- expressions
     def comp(self, e, env, pre):
@@ -61,6 +62,13 @@ class FTr(STr):
     def _expr(self, e, env, pre):
         if isinstance(e, ast.ListComp):
             return self.comp(e, env, pre)
+        if isinstance(e, ast.Compare) and len(e.ops) == 1 and isinstance(e.ops[0], ast.IsNot) and isinstance(e.comparators[0], ast.Constant) and e.comparators[0].value is None \
+                and isinstance(e.left, ast.Attribute) and e.left.attr == "centroid":
+            sib = self._expr(e.left.value, env, pre)
+            if sib.ty == "deme":
+                return V(f"(has_centroid {sib.code})", "bool")
+        if isinstance(e, ast.Attribute) and e.attr == "check_only_active" and dotted(e) == "self.check_only_active":
+            return V("p_only_active", "bool")
         if isinstance(e, ast.Compare) and len(e.ops) == 1 and isinstance(e.ops[0], (ast.Gt, ast.Lt)):
             a, b = self._expr(e.left, env, pre), self._expr(e.comparators[0], env, pre)
             if a.ty == b.ty == "ind":
@@ -104,8 +112,30 @@ class FTr(STr):
                 return V(f"(nth {i.code} {base.code} 0%Z)", "ind")
         self.bad(e, "subscript")
 
+    def helper_template(self, name, template):
+        """the body of a one-line helper method of the filter class must be exactly `return <template>`"""
+        fn = find_def(self.mod, name, self.cls)
+        want = ast.dump(ast.parse(template).body[0])
+        if len(fn.body) != 1 or ast.dump(fn.body[0]) != want:
+            raise Unsupported(f"{self.src}:{fn.lineno}: {self.cls}.{name} is not `{template}`")
+
     def call(self, e, env, pre):
         d = dotted(e.func)
+        if d == "self._is_far_enough" and len(e.args) == 2 and isinstance(e.args[1], ast.Attribute) and e.args[1].attr == "centroid":
+            self.helper_template("_is_far_enough", "return nla.norm(ind.genome - centroid, ord=self.norm_ord) > self.min_distance")
+            ind, sib = self._expr(e.args[0], env, pre), self._expr(e.args[1].value, env, pre)
+            if (ind.ty, sib.ty) == ("ind", "deme"):
+                return V(f"(Z.ltb p_thr (dist {ind.code} {sib.code}))", "bool")
+        if d == "self._is_nbc_far_enough" and len(e.args) == 3 and isinstance(e.args[1], ast.Attribute) and e.args[1].attr == "centroid":
+            self.helper_template("_is_nbc_far_enough", "return nla.norm(ind.genome - centroid, ord=self.norm_ord) > self.min_distance_factor * mean_dist")
+            ind, sib = self._expr(e.args[0], env, pre), self._expr(e.args[1].value, env, pre)
+            md = e.args[2]
+            # candidates[deme].features.nbc_mean_distance: the threshold factor x mean distance is a per-parent oracle value
+            if isinstance(md, ast.Attribute) and md.attr == "nbc_mean_distance" and isinstance(md.value, ast.Attribute) and md.value.attr == "features" and isinstance(md.value.value, ast.Subscript):
+                ent = self._expr(md.value.value, env, pre)
+                if (ind.ty, sib.ty, ent.ty) == ("ind", "deme", "cands"):
+                    par = self._expr(md.value.value.slice, env, pre)
+                    return V(f"(Z.ltb (nbc_thr {par.code}) (dist {ind.code} {sib.code}))", "bool")
         if d == "sorted" and len(e.args) == 1 and [k.arg for k in e.keywords] == ["reverse"] and isinstance(e.keywords[0].value, ast.Constant) and e.keywords[0].value.value is True:
             v = self._expr(e.args[0], env, pre)
             if v.ty == "inds":
@@ -131,6 +161,8 @@ class FTr(STr):
                     t = n.targets[0].value.value.id
                 if isinstance(n, ast.Call) and isinstance(n.func, ast.Attribute) and n.func.attr == "sort" and isinstance(n.func.value, ast.Name):
                     t = n.func.value.id
+                if isinstance(n, ast.Assign) and len(n.targets) == 1 and isinstance(n.targets[0], ast.Name):
+                    t = n.targets[0].id
                 if t and isinstance(env.get(t), V) and env[t].ty in ("cmap", "inds") and t not in out:
                     out.append(t)
         return out
@@ -142,6 +174,11 @@ class FTr(STr):
         go = lambda env2: self.block(rest, env2, k, ret)  # noqa: E731
         if isinstance(s, ast.Expr) and isinstance(s.value, ast.Constant):
             return go(env)
+        if isinstance(s, ast.Assert):
+            # an assertion over values the model does not contain (the candidates' ELA features): no effect
+            if self.opaque_ok(s.test, env) or all(isinstance(n, ast.Call) is False or dotted(n.func) in ("all", "candidates.values") for n in ast.walk(s.test)):
+                return go(env)
+            self.bad(s, "assert")
         if isinstance(s, ast.Return):
             env = dict(env)
             pre, v = self.expr(s.value, env)
@@ -197,7 +234,7 @@ class FTr(STr):
             decl, use = self.params(env, exclude={env[nm].code})
             inner[nm] = V("v_" + nm, env[nm].ty)
             body = self.block(s.body, inner, lambda e2: f"ret {e2[nm].code}", None)
-            lty = COQTY[env[nm].ty]
+            lty = COQTY[env[nm].ty] if env[nm].ty != "inds" else "(list Z)"
             self.aux.append(f"Definition {self.fname}_forl{k_id} {decl}(v_{nm} : {lty}) ({x} : nat) : D {lty} :=\n  {body}.\n")
             after = dict(env)
             after[nm] = V("v_" + nm, env[nm].ty)
@@ -210,7 +247,7 @@ def filter_method(mod, cls, params, fname):
     argn = [a.arg for a in fn.args.args]
     if len(argn) != 3 or argn[0] != "self":
         raise Unsupported(f"{SRC}:{fn.lineno}: {cls}.__call__ signature changed: {argn}")
-    tr = FTr(SRC, cls, fname, params)
+    tr = FTr(SRC, cls, fname, params, mod)
     env = {argn[1]: V("v_" + argn[1] + "0", "cmap")}
     if argn[2] != "_":
         env[argn[2]] = V("tree", "treeobj", deps=set())
@@ -219,11 +256,38 @@ def filter_method(mod, cls, params, fname):
     return "".join(a + "\n" for a in tr.aux) + f"Definition {fname} {decl}: D cmap :=\n  returned ({body}).\n"
 
 
-def translate(repo):
+HEADER = ["From Coq Require Import List Bool Arith ZArith.", "From HV Require Import Ord Sprout Tree DriverPrim SproutPrim.", "Import ListNotations.", ""]
+
+
+def translate_one(repo, which):
+    """one Gen file per group of filter classes, so that a class that no longer translates breaks only the obligations about it"""
     mod = ast.parse(open(f"{repo}/{SRC}").read())
-    out = ["(* GENERATED from pyhms/sprout/sprout_filters.py by hv/translate/filters_py.py — do not edit *)",
-           "From Coq Require Import List Bool Arith ZArith.", "From HV Require Import Ord Sprout Tree DriverPrim SproutPrim.", "Import ListNotations.", ""]
     L = {"limit": ("p_limit", "nat")}
-    out.append(filter_method(mod, "DemeLimit", L, "gen_DemeLimit"))
-    out.append(filter_method(mod, "LevelLimit", L, "gen_LevelLimit"))
-    return {"GenFilters.v": "\n".join(out)}, [f"{SRC}:DemeLimit.__call__", f"{SRC}:LevelLimit.__call__"]
+    COQTY["Z"] = "Z"
+    if which == "levellimit":
+        out = ["(* GENERATED from pyhms/sprout/sprout_filters.py (LevelLimit) by hv/translate/filters_py.py — do not edit *)"] + HEADER
+        out.append(filter_method(mod, "LevelLimit", L, "gen_LevelLimit"))
+        return {"GenLevelLimit.v": "\n".join(out)}, [f"{SRC}:LevelLimit.__call__"]
+    if which == "demelimit":
+        out = ["(* GENERATED from pyhms/sprout/sprout_filters.py (DemeLimit) by hv/translate/filters_py.py — do not edit *)"] + HEADER
+        out.append(filter_method(mod, "DemeLimit", L, "gen_DemeLimit"))
+        return {"GenDemeLimit.v": "\n".join(out)}, [f"{SRC}:DemeLimit.__call__"]
+    out = ["(* GENERATED from pyhms/sprout/sprout_filters.py (FarEnough, NBC_FarEnough) by hv/translate/filters_py.py — do not edit *)"] + HEADER
+    out.append("(* the numbers numpy computes enter as oracles — dist ind s = the key of nla.norm(ind.genome - s.centroid, ord),\n"
+               "   has_centroid s = (s.centroid is not None), nbc_thr d = the key of min_distance_factor * (nbc_mean_distance of parent d's candidates) *)")
+    out.append("Section Distances.\nVariable dist : Z -> nat -> Z.\nVariable has_centroid : nat -> bool.\nVariable nbc_thr : nat -> Z.\n")
+    out.append(filter_method(mod, "FarEnough", {"min_distance": ("p_thr", "Z")}, "gen_FarEnough"))
+    out.append(filter_method(mod, "NBC_FarEnough", {"check_only_active": ("p_only_active", "bool")}, "gen_NBC_FarEnough"))
+    out.append("End Distances.\n")
+    return {"GenFar.v": "\n".join(out)}, [f"{SRC}:{c}.__call__" for c in ("FarEnough", "NBC_FarEnough")]
+
+
+class _FE:
+    def __init__(self, which, outputs):
+        self.which, self.OUTPUTS = which, outputs
+
+    def translate(self, repo):
+        return translate_one(repo, self.which)
+
+
+LEVELLIMIT, DEMELIMIT, FARFILTERS = _FE("levellimit", ["GenLevelLimit.v"]), _FE("demelimit", ["GenDemeLimit.v"]), _FE("farfilters", ["GenFar.v"])
